@@ -67,7 +67,7 @@ const (
 	flNonBMP    = 1 // a non-BMP character occurs on the line before the end of the lexeme
 	flQuoted    = 2 // the lexeme is the quoted form of the name
 	flTextTrail = 4 // commodity lexed as free text and followed by blanks
-	flPayeeOdd  = 8 // header is not DATE [STATUS ]PAYEE with single blanks
+	flPayeeOdd  = 8 // header is not DATE [STATUS ]PAYEE with single blanks (evidence counters only)
 )
 
 type c09Span struct {
@@ -316,30 +316,39 @@ func c09Date(r *rand.Rand) string {
 
 func (g *c09Pool) transaction(b *jb, r *rand.Rand, o c09Opts) {
 	b.w(c09Date(r))
+	// what may stand between the date and the payee: a secondary date, a status mark, a code, each
+	// after a run of blanks and tabs (the payee's range is read off the header line:
+	// fix-payee-range.diff; `odd` only feeds the evidence counter)
 	odd := false
-	if o.odd && r.IntN(4) == 0 {
+	gap := func() string {
+		if !o.odd {
+			return " "
+		}
+		switch r.IntN(8) {
+		case 0:
+			odd = true
+			return "\t"
+		case 1:
+			odd = true
+			return pick(r, []string{" \t", "\t ", " \t "})
+		case 2, 3:
+			odd = true
+			return pick(r, []string{"  ", "   ", "      "})
+		}
+		return " "
+	}
+	if o.odd && r.IntN(3) == 0 {
 		b.w("=" + c09Date(r))
 		odd = true
 	}
-	sp := " "
-	if o.odd && r.IntN(5) == 0 {
-		sp = "  "
-		odd = true
-	}
 	if r.IntN(3) == 0 {
-		b.w(sp + pick(r, []string{"*", "!"}))
-		if o.odd && r.IntN(6) == 0 {
-			sp = "   "
-			odd = true
-		} else {
-			sp = " "
-		}
+		b.w(gap() + pick(r, []string{"*", "!"}))
 	}
-	if o.odd && r.IntN(4) == 0 {
-		b.w(sp + "(" + pick(r, []string{"123", "A-7", "x y"}) + ")")
+	if o.odd && r.IntN(3) == 0 {
+		b.w(gap() + "(" + pick(r, []string{"123", "A-7", "x y", "№ 5"}) + ")")
 		odd = true
-		sp = " "
 	}
+	sp := gap()
 	b.w(sp)
 	payee := pick(r, g.payees)
 	fl := 0
@@ -642,7 +651,7 @@ func genC09Scenario(c *Ctx, r *rand.Rand) *c09Scenario {
 	// characters outside the BMP in accounts, payees and comments: the server converts rune
 	// columns to UTF-16 units at the protocol boundary, so these sessions are judged like any other
 	nb := r.IntN(3) == 0
-	o := c09Opts{nbText: nb, odd: r.IntN(4) == 0, tricky: r.IntN(3) == 0}
+	o := c09Opts{nbText: nb, odd: r.IntN(4) != 0, tricky: r.IntN(3) == 0}
 	pool := c09MakePool(r, nb)
 	if nb {
 		c.Count("ws.nonbmp")
@@ -1153,6 +1162,16 @@ func (s *c09Session) genReqs(c *Ctx, r *rand.Rand, rename bool) []c09Req {
 				}
 				break
 			}
+			// a payee behind a secondary date / a code / a run of blanks or tabs: rename from it
+			for _, sp := range spans {
+				if sp.Flags&flPayeeOdd == 0 {
+					continue
+				}
+				ch := sp.C0 + r.IntN(sp.C1-sp.C0+1)
+				reqs = append(reqs, c09Req{f.Path, uint32(sp.Line), uint32(ch), true, c09NewName(r, sp.K)})
+				c.Count("rename.oddpayee")
+				break
+			}
 			if r.IntN(4) == 0 {
 				// a random position; the new name suits whatever is there
 				l, ch := r.IntN(6), r.IntN(30)
@@ -1180,6 +1199,9 @@ func (s *c09Session) genReqs(c *Ctx, r *rand.Rand, rename bool) []c09Req {
 				c.Count("refs.site=" + sp.Site)
 				if sp.Flags&flQuoted != 0 {
 					c.Count("refs.quoted.site=" + sp.Site)
+				}
+				if sp.Flags&flPayeeOdd != 0 {
+					c.Count("refs.oddpayee")
 				}
 			}
 			// just outside the lexeme
